@@ -310,6 +310,10 @@ def staged_strategy():
         st.text(alphabet=ALNUM, min_size=3, max_size=6).map(lambda s: "/" + s),
         st.integers(0, 2**32).map(lambda s: ("x86", s)),
         st.integers(0, 2**32).map(lambda s: ("x64", s)),
+        # a known request whose URI is empty, or holds bytes outside ASCII, is still a known request
+        st.just(""),
+        st.lists(st.integers(0x80, 0xFF), min_size=1, max_size=5).map(bytes),
+        st.tuples(st.sampled_from([b"/", b"/ab", b""]), st.lists(st.integers(0x80, 0xFF), min_size=1, max_size=3).map(bytes), st.sampled_from([b"", b"c", b"/x"])).map(lambda t: t[0] + t[1] + t[2]),
     )
     return st.fixed_dictionaries(
         {
@@ -352,7 +356,16 @@ def staged_execute(case, stats):
         from ..runner import Discard
 
         raise Discard("accidental header/marker in filler")
-    req = None if uri is None else HttpRequest(method=b"GET", uri=uri.encode(), params={}, headers={}, body=b"")
+    uri_bytes = None
+    if isinstance(uri, bytes):
+        # non-ASCII bytes: only URIs that are no stager URI under either reading (bytes dropped / latin-1 characters)
+        uri_bytes, readings = uri, (uri.decode("ascii", "ignore"), uri.decode("latin-1"))
+        if any(ref_is_x86(u) or ref_is_x64(u) for u in readings):
+            from ..runner import Discard
+
+            raise Discard("non-ASCII URI that one reading classifies as a stager URI")
+        uri = readings[1]
+    req = None if uri is None else HttpRequest(method=b"GET", uri=uri.encode() if uri_bytes is None else uri_bytes, params={}, headers={}, body=b"")
     resp = HttpResponse(status=200, headers={}, reason=b"OK", body=body, request=req)
     cap = pcap.BeaconCapture(pcap="/nonexistent.pcap")
     got = lib(cap.find_staged_beacon, resp)
@@ -368,7 +381,7 @@ def staged_execute(case, stats):
     stats.note(
         case,
         uri is not None,
-        classes=["no_request" if uri is None else ("stager" if stager else "non_stager"), "beacon" if case["has_beacon"] else "no_beacon"],
+        classes=["no_request" if uri is None else ("stager" if stager else "non_stager"), "beacon" if case["has_beacon"] else "no_beacon"] + (["empty_uri"] if uri == "" else ["non_ascii_uri"] if uri_bytes is not None else []),
     )
 
 
